@@ -68,9 +68,14 @@ func c07Scenarios() []c07Scn {
 	add("respend-of-locked-input-then-succeeded", pend, "swap|0|exact", "S", "")
 	add("respend-of-spent-input", append(append([]string{}, base...), "swap|0|exact"), "swap|0|exact", "", "")
 	add("pollq-unpaid-to-paid", append(append([]string{}, base...), "mq|8", "settle|1"), "pollq|1", "", "")
+	// the invoice notification arrives after the quote was paid, polled and issued: the watcher's own reads / writes fail
+	add("late-notification-after-issued", append(append([]string{}, base...), "mq|8", "settle|1", "mint|1|exact"), "fire|1", "", "")
 	add("mintquote", base, "mq|8", "", "")
 	add("meltquote", base, "meltq|4", "", "")
 	add("rotate-runtime", base, "rotrt|100", "", "")
+	// a second / third rotation: older keysets exist, the recovery of an interrupted rotation has a choice
+	add("rotate-runtime-second", append(append([]string{}, base...), "rotrt|100"), "rotrt|200", "", "")
+	add("rotate-runtime-third", append(append([]string{}, base...), "rotrt|100", "rotrt|0"), "rotrt|200", "", "")
 	s = append(s, c07Scn{Name: "swap-fee100", Fee: 100, Prep: base, Op: "swap|0|exact"})
 	s = append(s, c07Scn{Name: "melt-succeeded-fee100", Fee: 100, Prep: mq, Op: "melt|0|0|S"})
 	return s
@@ -153,9 +158,12 @@ func c07Exec(j c07Job) (res c07Res) {
 	occ := map[string]int{}
 	crashed := false
 	point := func(name string, isDB bool) error {
-		if dbwrap.GID() != me {
+		background := dbwrap.GID() != me
+		if background && !strings.HasPrefix(sc.Op, "fire") {
 			return nil // background goroutines of the mint are not part of the operation
 		}
+		// ... unless the operation IS the mint's invoice watcher handling a notification ("fire"): its store calls are
+		// the fault points; only storage errors are injected there (a panic in that goroutine would end the process)
 		idx := n
 		n++
 		occ[name]++
@@ -166,6 +174,10 @@ func c07Exec(j c07Job) (res c07Res) {
 		calls = append(calls, label)
 		if j.K >= 0 && idx == j.K {
 			res.Fault = label
+			if j.Mode == "crash" && background {
+				res.Skipped = true
+				return nil
+			}
 			if j.Mode == "crash" {
 				crashed = true
 				panic(crashSentinel{})
@@ -327,6 +339,24 @@ func c07Exec(j c07Job) (res c07Res) {
 	listed := map[string]uint{}
 	for _, k := range w.M.M.ListKeysets().Keysets {
 		listed[k.Id] = k.InputFeePpk
+	}
+	// the keyset that signs after the fault is never one that had been rotated out before it: either the one that was
+	// active, or a newer one (the interrupted rotation's)
+	activeBefore := -1
+	for _, seen := range w.Keysets {
+		if seen.Active && seen.Idx > activeBefore {
+			activeBefore = seen.Idx
+		}
+	}
+	for _, k := range w.M.M.ListKeysets().Keysets {
+		if !k.Active {
+			continue
+		}
+		for _, seen := range w.Keysets {
+			if seen.Id == k.Id && seen.Idx < activeBefore {
+				res.V = append(res.V, rt.Violation{Property: "C07,C09", Key: where + "/safety/rotated-out-keyset-active-again", What: fmt.Sprintf("[%s of %s, fault before %s] keyset %d, rotated out before the fault (keyset %d was active), is the active keyset after it", j.Mode, sc.Op, res.Fault, seen.Idx, activeBefore)})
+			}
+		}
 	}
 	for _, seen := range w.Keysets {
 		fee, ok := listed[seen.Id]
@@ -590,11 +620,13 @@ func c07Kind(name string) string {
 		return "Swap"
 	case name == "pollq-unpaid-to-paid":
 		return "GetMintQuoteState"
+	case name == "late-notification-after-issued":
+		return "InvoiceNotification"
 	case name == "mintquote":
 		return "RequestMintQuote"
 	case name == "meltquote":
 		return "RequestMeltQuote"
-	case name == "rotate-runtime":
+	case strings.HasPrefix(name, "rotate-runtime"):
 		return "RotateKeyset"
 	}
 	return name
